@@ -5,6 +5,9 @@ import (
 	"encoding/json"
 	"fmt"
 	"time"
+
+	sgbucket "github.com/couchbase/sg-bucket"
+	"github.com/couchbaselabs/rosmar"
 )
 
 func jsonMarshal(v any) ([]byte, error) { return json.Marshal(v) }
@@ -18,10 +21,13 @@ func (e *e2) control(op *Op, ctx *OpCtx) (res Res) {
 			res.ErrText = fmt.Sprint(r) + " @ " + firstRosmarFrame(string(stackOf()))
 		}
 	}()
+	e.mu.Lock()
 	h := op.Handle
-	if h >= len(e.w.Handles) {
+	if h >= len(e.w.Handles) || h < 0 {
 		h = 0
 	}
+	handle := e.w.Handles[h]
+	e.mu.Unlock()
 	switch op.Kind {
 	case "StartFeed":
 		_, err := e.startFeed(*op.Feed)
@@ -44,12 +50,12 @@ func (e *e2) control(op *Op, ctx *OpCtx) (res Res) {
 			<-f.Done
 		}
 	case "Close":
-		e.w.Handles[h].Close(context.Background())
+		handle.Close(context.Background())
 		e.mu.Lock()
 		e.closedHandles[h] = true
 		e.mu.Unlock()
 	case "CloseAndDelete":
-		err := e.w.Handles[h].CloseAndDelete(context.Background())
+		err := handle.CloseAndDelete(context.Background())
 		res.Err = classify(err)
 		e.mu.Lock()
 		e.deleted = true
@@ -58,7 +64,7 @@ func (e *e2) control(op *Op, ctx *OpCtx) (res Res) {
 		}
 		e.mu.Unlock()
 	case "DropColl":
-		err := e.w.Handles[h].DropDataStore(e.w.CollName[op.Coll])
+		err := handle.DropDataStore(e.w.CollName[op.Coll])
 		res.Err = classify(err)
 		if err == nil {
 			e.mu.Lock()
@@ -68,6 +74,32 @@ func (e *e2) control(op *Op, ctx *OpCtx) (res Res) {
 			e.dropped[op.Coll] = true
 			e.mu.Unlock()
 		}
+	case "OpenHandle":
+		mode := rosmar.OpenMode(rosmar.CreateOrOpen)
+		if op.CasMode == "reopen" {
+			mode = rosmar.ReOpenExisting
+		}
+		b, err := rosmar.OpenBucket(e.w.URL, e.w.Name, mode)
+		res.Err = classify(err)
+		if err != nil {
+			res.ErrText = err.Error()
+			return res
+		}
+		var cs []sgbucket.DataStore
+		for i := 0; i < e.p.NColl; i++ {
+			var ds sgbucket.DataStore
+			if i == 0 {
+				ds = b.DefaultDataStore()
+			} else {
+				ds, _ = b.NamedDataStore(collNames[i])
+			}
+			cs = append(cs, ds)
+		}
+		e.mu.Lock()
+		e.w.Handles = append(e.w.Handles, b)
+		e.w.Colls = append(e.w.Colls, cs)
+		res.Val = uint64(len(e.w.Handles) - 1)
+		e.mu.Unlock()
 	case "Sleep":
 		time.Sleep(time.Duration(op.Dur) * time.Second)
 	case "Yield":
